@@ -130,6 +130,9 @@ def to_sheets(form):
         for i, h in enumerate(form.get("settings_header_extra", [])):
             head.insert(0 if i % 2 == 0 else len(head), h)
         sheets["settings"] = (head, [{} for _ in range(form.get("settings_blank_rows", 0))] + [dict(st)])
+    elif form.get("settings_header_only"):
+        # the sheet exists and has its header row, nothing is filled in yet
+        sheets["settings"] = (list(form["settings_header_only"]), [])
     if form.get("ext"):
         sheets["external_choices"] = (form.get("ext_header") or header_of(form["ext"]), [dict(r) for r in form["ext"]])
     if form.get("entities"):
